@@ -586,3 +586,56 @@ Theorem coo_cache_bounded :
 Proof.
   intros. subst s. unfold coo_run. apply family_bounded. apply init_bounded.
 Qed.
+
+(* ------------------------------------------------------------------ non-vacuity *)
+Local Open Scope Z_scope.
+
+(* the memo hypothesis is satisfiable: keys are the arguments themselves, compared with Z.eqb *)
+Example memo_hypothesis_satisfiable :
+  forall e0 e : Z, Z.eqb (id e0) (id e) = true -> Z.succ e0 = Z.succ e.
+Proof. intros e0 e H. apply Z.eqb_eq in H. unfold id in H. now subst. Qed.
+
+(* capacity 1: the second call hits, key 2 evicts key 1, key 1 is recomputed, 0 is the identity short-cut *)
+Example memo_example :
+  let r := memo_run_cached Z Z Z Z Z.eqb 1%nat (fun a => if a =? 0 then PSelf else PGo a) id id Z.succ [] [1; 1; 2; 1; 0] in
+  fst r = [MVal 2; MVal 2; MVal 3; MVal 2; MSelf] /\ snd r = [(1, 2)]
+  /\ fst r = memo_run_uncached Z Z Z (fun a => if a =? 0 then PSelf else PGo a) Z.succ [1; 1; 2; 1; 0].
+Proof. vm_compute. repeat split; reflexivity. Qed.
+
+Fixpoint zs_eqb (a b : list Z) : bool :=
+  match a, b with
+  | [], [] => true
+  | x :: r, y :: q => (x =? y) && zs_eqb r q
+  | _, _ => false
+  end.
+
+Lemma zs_eqb_sound a b : zs_eqb a b = true -> a = b.
+Proof.
+  revert b. induction a as [|x r IH]; intros [|y q]; cbn; try discriminate; auto.
+  intros H. apply andb_true_iff in H. destruct H as [H1 H2]. apply Z.eqb_eq in H1. subst. f_equal. now apply IH.
+Qed.
+
+(* a concrete family: values are shapes; capacity 1.  Call 2 returns the identical object as call 1
+   (id 1); key [2] evicts key [1]; call 4 recomputes (a new object, id 3); the uncached twin creates a
+   new object per call; the values agree call by call. *)
+Definition ex_family (mode : bool) :=
+  coo_run (list Z) (list Z) (list Z) (list Z) zs_eqb 1%nat
+          (fun _ a => match a with [] => PSelf | _ => PGo (fun _ => a) end) (fun v k => List.concat k ++ v)
+          (fun _ a => match a with [] => PSelf | _ => PGo (fun _ => a) end) (fun v k => v ++ List.concat k)
+          (fun _ => None) (fun v => Ok v) (fun m => 0 :: m) (fun m => m)
+          mode
+          [(TRoot, OpT [1]); (TRoot, OpT [1]); (TRoot, OpT [2]); (TRoot, OpT [1]); (TOut 0, OpR [5]);
+           (TOut 1, OpR [5]); (TRoot, OpCsc); (TRoot, OpCsr); (TRoot, OpT [])]
+          (init (list Z) _ _ [7]).
+
+Example ex_family_identities :
+  outs (ex_family true)
+  = [OObj 1; OObj 1; OObj 2; OObj 3; OObj 4; OObj 4; OObj 6; OObj 5; OObj 0]%nat
+  /\ outs (ex_family false)
+  = [OObj 1; OObj 2; OObj 3; OObj 4; OObj 5; OObj 6; OObj 7; OObj 8; OObj 0]%nat.
+Proof. vm_compute. split; reflexivity. Qed.
+
+Example ex_family_values :
+  out_vals _ _ _ (ex_family true) = out_vals _ _ _ (ex_family false)
+  /\ nth_error (out_vals _ _ _ (ex_family true)) 4 = Some (VVal [1; 7; 5]).
+Proof. vm_compute. split; reflexivity. Qed.
